@@ -125,6 +125,28 @@ pub fn run(rep: &mut StageReport, tier: &str, _seed: u64) {
                 }
                 Err(e) => v.push(("server from PEM files".to_string(), true, Err(format!("INCONCLUSIVE server start from PEM files failed: {e}")))),
             }
+            // --- impostor servers: they accept this deployment's clients (client CA = CA-A) but present a server
+            // certificate that does not chain to CA-A, so the *client's* verification is the only line of defence.
+            // CA-B is in this process' platform trust store (SSL_CERT_FILE above).
+            match start_server_with(&a.server_ca(), &b.server_cert(), &b.server_key()) {
+                Ok(si) => {
+                    v.push(("lib: client trusting CA-B with cert A → impostor server (cert from CA-B, accepts CA-A clients): control, must work".to_string(), true, lib_attempt(&si.endpoint(), &b.client_ca(), &a.client_cert(), &a.client_key(), &t(18)).await));
+                    v.push(("lib: client trusting CA-A only → impostor server whose certificate chains to CA-B, a CA of the host's platform trust store".to_string(), false, lib_attempt(&si.endpoint(), &a.client_ca(), &a.client_cert(), &a.client_key(), &t(19)).await));
+                    si.stop();
+                }
+                Err(e) => v.push(("impostor server".to_string(), true, Err(format!("INCONCLUSIVE impostor server start failed: {e}")))),
+            }
+            let (ss_cert_p, ss_key_p) = (pem_dir.join("ss.der"), pem_dir.join("ss.key.der"));
+            let _ = std::fs::write(&ss_cert_p, &ss_cert);
+            let _ = std::fs::write(&ss_key_p, &ss_key);
+            match start_server_with(&a.server_ca(), &ss_cert_p, &ss_key_p) {
+                Ok(si) => {
+                    v.push(("lib: client trusting CA-A only → impostor server with a self-signed certificate (accepts CA-A clients)".to_string(), false, lib_attempt(&si.endpoint(), &a.client_ca(), &a.client_cert(), &a.client_key(), &t(20)).await));
+                    v.push(("raw: client trusting that self-signed certificate, cert A → the same impostor: control, must work".to_string(), true, raw_attempt(si.addr, &ss_cert, id_a.clone(), &t(21)).await));
+                    si.stop();
+                }
+                Err(e) => v.push(("impostor server (self-signed)".to_string(), true, Err(format!("INCONCLUSIVE impostor server start failed: {e}")))),
+            }
             let _ = std::fs::remove_dir_all(&pem_dir);
             sa.stop();
             sb.stop();
